@@ -1,5 +1,5 @@
 """C12 printed values read back as equal values."""
-REG_DRAFT = dict(
+REG = dict(
     engine='E1-enum',
     technique='bounded-exhaustive enumeration of literal-syntax values (every string up to a length bound over an alphabet of all lexer-relevant characters; boundary ints; a float pool; containers of nesting <=2), printed by the real `string_repr`, the printed text re-read and re-evaluated by the real lexer/parser/interpreter',
     text="Strings: every string of length <=3 (quick) / <=4 (thorough) over the 13-character alphabet {a, double quote, backslash, n, t, LF, TAB, CR, space, é, 😀, {, $} (every character the lexer's string regex, `unescape_string` and `escape_string_literal` treat specially, the letters that follow a backslash in an escape, and candidates for interpolation syntax). The string value is built without literal syntax (it arrives as a program argument and is checked raw on stdout), T = stdout of `print(string_repr(v))`, then the program `print(<T>)` must parse, evaluate without error and write exactly the original characters. Separately the minimally escaped literal of the same string is checked to denote it. Ints (boundary set), floats (pool incl. 1e15..1e22, 1e-5..1e-9, -0.0, 5e-324, 1e308, MAX) and containers (lists, tuples, dicts with every key of length <=1, Option, Result, Bool, Unit, a user struct, a user enum; nesting <=2 over a 7-value element pool): T must parse and evaluate, print as T again, and for numbers denote the same number (floats bit-for-bit).",
